@@ -35,7 +35,9 @@ GRAMMARS = {
 }
 CASES = {
     "g1": {"ok": ("r", "a f 09 yy A", 0), "fail": ("r", "a f 09 yz", 0)},
-    "g2": {"ok": ("r", "xx.x.bb9#1f#2e", 0), "fail": ("r", "xyz..99#1g", 0)},
+    # g2: the failing text has no terminator of the skip idiom at all and is as long as the succeeding one (every call parses its
+    # own temporary copy: a parser that remembers "nothing left to find" by address meets the other text at that address)
+    "g2": {"ok": ("r", "xx.x.bb9#1f#2e", 0), "fail": ("r", "xyz..xyz..xyz.", 0)},
     "g3": {"ok": ("r", "..ab, 12_,\tc", 2), "fail": ("r", "ab,  12,c", 0)},
 }
 OPTS = {"none": "none", "default": None, "custom": ["squash_choice", "inline built-in"]}
@@ -51,6 +53,7 @@ def _init():
 
 def digest(pest, parser, case):
     rule, text, start = case
+    text = M.fresh_copy(text)  # this call's own temporary copy of the input, at the address of the previous call's if it fits
     o = M.run_parse(pest, parser, rule, text, start, keep=True, timeout=30)
     if o.get("ok") is True:
         res = {"ok": True, "pairs": o["pairs"]}
